@@ -1662,6 +1662,12 @@ int bufr_between_values( const BufrValue *bv1, const BufrValue *bv, const BufrVa
    if (((bv1->type == VALTYPE_STRING) != (bv->type == VALTYPE_STRING))
      ||((bv2->type == VALTYPE_STRING) != (bv->type == VALTYPE_STRING))) return -1;
 
+/*
+ * a missing number is represented by -1 or by the largest real: it is not a quantity
+ * that lies between two bounds
+ */
+   if ((bv->type != VALTYPE_STRING) && bufr_value_is_missing( (BufrValue *)bv )) return 0;
+
    switch( bv->type )
       {
       case VALTYPE_INT8 :
